@@ -33,6 +33,22 @@ int drv_pure(void) {
       free(root);
       free(rel);
       free(ver);
+    } else if (!strcmp(t[0], "bm")) {
+      /* bm <size guess> <op>...   op = s<bit> | u<bit> | g<bit> */
+      struct bitmap *bm = create_bitmap(strtoul(t[1], NULL, 10), trace);
+      printf("bm");
+      for (int i = 2; i < n; ++i) {
+        size_t bit = strtoul(t[i] + 1, NULL, 10);
+        if (t[i][0] == 's') {
+          set_bit(bit, bm, trace);
+        } else if (t[i][0] == 'u') {
+          unset_bit(bit, bm);
+        } else {
+          printf(" %d", get_bit(bit, bm) ? 1 : 0);
+        }
+      }
+      printf("\n");
+      free_bitmap(bm);
     } else if (!strcmp(t[0], "cpp")) {
       char *a = unhex(t[1]), *b = unhex(t[2]);
       printf("cpp %zu\n", get_common_parent_path_length(a, b));
@@ -62,8 +78,11 @@ int drv_pure(void) {
         printf("\n");
       } else {
         printf("params ok help=%d version=%d c=", is_help_requested(params), is_version_requested(params));
-        if (get_config_path(params)) {
-          print_hex(get_config_path(params));
+        /* params.h declares get_config_path returns_nonnull although it returns NULL without -c:
+           read it through a volatile so that the test is not optimised away */
+        const char *volatile cp = get_config_path(params);
+        if (cp) {
+          print_hex(cp);
         } else {
           printf("-");
         }
